@@ -701,12 +701,12 @@ def fault_variants(base_trace, rs, ws, fs):
             items.append(fill)
         return items
     for k in range(nr):
-        for kind in ("i", "o", "z"):
+        for kind in ("i", "o", "z", "u"):
             it = pad(rs, k, "c70000")
             it = it[:k] + [kind] + it[k:]
             out.append((",".join(it), ws, fs, "read-%s@%d" % (kind, k)))
     for k in range(nw):
-        for kind in ("i", "o", "z"):
+        for kind in ("i", "o", "z", "y"):
             it = pad(ws, k, "c70000")
             it = it[:k] + [kind] + it[k:]
             out.append((rs, ",".join(it), fs, "write-%s@%d" % (kind, k)))
@@ -795,7 +795,7 @@ class C10(Prop):
                         # success is allowed only when the failure was a retried interruption and all was written
                         if not (kind == "i" and res["out"] == good["out"]):
                             return ("success only after a retried interruption with everything written", "ok out=" + res["out"][:40].hex())
-                    elif kind in ("o", "b"):
+                    elif kind in ("o", "b", "u", "y"):
                         want = rd if side == "read" else wr
                         if res["code"] not in want:
                             return ("error identifies the failing side (%s)" % side, res["outcome"])
